@@ -137,6 +137,13 @@ type Knobs struct {
 	// SectorLoss: "" = any subset of unsynced sectors may be lost in a crash;
 	// "all-or-none" = no torn writes; "none" = everything written survives.
 	SectorLoss string `json:"sector_loss,omitempty"`
+	// OnePerNode: at most one client command is outstanding per node (no two
+	// connection handlers of one node are ever active in the same step).
+	OnePerNode bool `json:"one_per_node,omitempty"`
+	// OneAtATime: at most one client command is outstanding in the whole cluster.
+	OneAtATime bool `json:"one_at_a_time,omitempty"`
+	// Burst: every client that can send does so in the same step (race sweep).
+	Burst bool `json:"burst,omitempty"`
 	// LivenessS: budget in simulated seconds for the final liveness probe.
 	LivenessS int `json:"liveness_s"`
 }
